@@ -320,6 +320,55 @@ theorem cutBy_ne : ∀ (ns : List Nat) (b : Bytes), ∀ d ∈ cutBy ns b, d ≠ 
           omega
         · exact ih _ d hd
 
+/-- a cut list whose first part adds up to the length of the first answer cuts at the boundary
+    between the two answers (this is what the sizes of real transport deliveries do: the second
+    answer does not exist before `echo $?` has been sent) -/
+theorem cutBy_boundary : ∀ (p1 p2 : List Nat) (r1 r2 : Bytes), p1.sum = r1.length →
+    cutBy (p1 ++ p2) (r1 ++ r2) = cutBy p1 r1 ++ cutBy p2 r2 := by
+  intro p1
+  induction p1 with
+  | nil =>
+    intro p2 r1 r2 h
+    have : r1 = [] := List.length_eq_zero_iff.mp (by simpa using h.symm)
+    subst this
+    simp [cutBy_nil]
+  | cons n p1 ih =>
+    intro p2 r1 r2 h
+    simp only [List.sum_cons] at h
+    by_cases hn : n = 0
+    · subst hn
+      have h' : p1.sum = r1.length := by omega
+      cases hr : r1 ++ r2 with
+      | nil =>
+        have h1 : r1 = [] := (List.append_eq_nil_iff.mp hr).1
+        have h2 : r2 = [] := (List.append_eq_nil_iff.mp hr).2
+        subst h1; subst h2
+        simp [cutBy_nil]
+      | cons x t =>
+        have e1 : cutBy (0 :: (p1 ++ p2)) (x :: t) = cutBy (p1 ++ p2) (x :: t) := by
+          simp [cutBy]
+        have e2 : cutBy (0 :: p1) r1 = cutBy p1 r1 := by
+          cases r1 with
+          | nil => simp [cutBy_nil]
+          | cons y u => simp [cutBy]
+        rw [List.cons_append, e1, e2, ← hr]
+        exact ih p2 r1 r2 h'
+    · have hr1 : r1 ≠ [] := by
+        intro h0; subst h0; simp at h; omega
+      obtain ⟨y, u, rfl⟩ : ∃ y u, r1 = y :: u := by
+        cases r1 with
+        | nil => exact absurd rfl hr1
+        | cons y u => exact ⟨y, u, rfl⟩
+      have hle : n ≤ (y :: u).length := by omega
+      have e1 : cutBy (n :: (p1 ++ p2)) (y :: u ++ r2)
+          = ((y :: u) ++ r2).take n :: cutBy (p1 ++ p2) (((y :: u) ++ r2).drop n) := by
+        simp [cutBy, hn]
+      have e2 : cutBy (n :: p1) (y :: u) = (y :: u).take n :: cutBy p1 ((y :: u).drop n) := by
+        simp [cutBy, hn]
+      rw [List.cons_append, e1, e2, List.take_append_of_le_length hle, List.drop_append_of_le_length hle,
+        ih p2 ((y :: u).drop n) r2 (by simp only [List.length_drop]; omega)]
+      rfl
+
 theorem flat_toScript (ps : List Bytes) : flat (toScript ps) = ps.flatten := by
   simp [flat, toScript, List.map_map, Function.comp_def]
 
@@ -450,6 +499,13 @@ theorem specCmd_runCmd (c : ShCase) (cmd : ShCmd) (pieces p1 p2 : List Nat) (hc 
     | test =>
       simp only [test_of_exec _ _ _ _ _ hexec, hran, Bool.not_false, if_true, beq_self_eq_true, Bool.true_and]
       exact bool_beq _
+
+/-- (4) with the boundary condition in arithmetic form -/
+theorem specCmd_runCmd_sum (c : ShCase) (cmd : ShCmd) (p1 p2 : List Nat) (hc : 0 < c.chunk)
+    (hst : cmd.status < 256) (hearly : NoEarly (prompt c) (Tty.cook cmd.out ++ prompt c))
+    (hsum : p1.sum = (respCmd false (prompt c) (lineOf cmd) cmd.out).length) :
+    specCmd c cmd (runCmd c cmd (p1 ++ p2)) = true :=
+  specCmd_runCmd c cmd (p1 ++ p2) p1 p2 hc hst hearly (cutBy_boundary p1 p2 _ _ hsum)
 
 /-- a case the model run of which is covered by the theorem: positive chunk size, and for every
     command status < 256, no early prompt, and a cut list that respects the phase boundary -/
